@@ -19,8 +19,11 @@
 // The assertions are stated in the caller's space and never use the wrapper's exponent formulas:
 //   row query:   coef^T M = e_r^T        column query:  M coef = e_c        solve: sol == v for rhs = M v
 //   multBasis:   vec == M v              multBasisTranspose: vec == M^T v
-// with M = B when (unscale && scaled), M = L otherwise. All numbers are small integers times powers of two and det(B) = +-2^k,
-// so every operation of the models, the real LU (native) and the reference is exact: the assertions are exact equalities.
+// with M = B when (unscale && scaled), M = L otherwise.
+// Shape of B (bound): a signed scaled permutation - column k has its one nonzero +-2^eB[k] in row p[k] (p = identity or swap);
+// then every product with B, Bs is an ldexp and every operation of the models, of the real LU (native) and of the reference is
+// exact: the assertions are exact equalities. (A general integer 2x2 B with exact adjugate/determinant models was tried first:
+// the floating-point multiplications make the solver run > 15 min per obligation.)
 #include "lp_build.h"
 #include <new>
 using namespace soplex; using namespace vph;
@@ -46,17 +49,21 @@ struct Script
    int unscale;               // the caller's flag
    int kind[NR], num[NR];     // basis position k holds: kind 0 = structural column num[k], kind 1 = the slack of row num[k]
    int rexp[NR], cexp[NC];    // scaling exponents (arbitrary, also when the LP is not scaled: then they must be ignored)
-   double B[NR][NR];          // unscaled basis matrix, column k = basis position k
-   double Bs[NR][NR];         // scaled basis matrix
-   double L[NR][NR];          // what the solver holds
-   double M[NR][NR];          // what the caller sees
+   // unscaled basis matrix B = signed scaled permutation: column k (basis position k) has its one nonzero sB[k] * 2^eB[k] in row p[k]
+   int p[NR], sB[NR], eB[NR];
+   int eS[NR];                // exponent of the nonzero of column k of the scaled basis matrix Bs = R B Ct
+   int eL[NR];                // ... of the matrix L the solver holds
+   int eM[NR];                // ... of the matrix M the caller sees
    double nb[NR];             // entries of the nonbasic structural columns (native LP only)
-   double invdet;             // 1 / det(L)
    int xmode, xorder;         // post-state of the sparse solution vector left by the LU model (setup or not, index order)
 };
 static Script sc;
 static int g_calls;           // LU model calls
 static const void* g_self;
+static inline double sgn(int k, double x) { return sc.sB[k] > 0 ? x : -x; }
+static inline double sel(const double* a, int i) { double r = 0.0; for(int q = 0; q < NR; ++q) if(q == i) r = a[q]; return r; }
+static inline double Mval(int i, int k) { return sc.p[k] == i ? ldexp(sgn(k, 1.0), sc.eM[k]) : 0.0; }      // M[i][k]
+static inline double Lval(int i, int k) { return sc.p[k] == i ? ldexp(sgn(k, 1.0), sc.eL[k]) : 0.0; }      // L[i][k]
 
 enum SlackMode { COLS_ONLY, WITH_SLACK };
 static void draw_script(SlackMode sm)
@@ -75,26 +82,26 @@ static void draw_script(SlackMode sm)
    if(sm == WITH_SLACK) vp_assume(nslack >= 1);
    for(int i = 0; i < NR; ++i) sc.rexp[i] = vp_int_in(-EMAX, EMAX);
    for(int j = 0; j < NC; ++j) sc.cexp[j] = vp_int_in(-EMAX, EMAX);
-   for(int i = 0; i < NR; ++i) for(int k = 0; k < NR; ++k) sc.B[i][k] = vp_small(-BMAX, BMAX);
-   for(int i = 0; i < NR; ++i) sc.nb[i] = vp_small(-BMAX, BMAX);
-   // a slack column is the unit vector of its row
-   for(int k = 0; k < NR; ++k) if(sc.kind[k]) for(int i = 0; i < NR; ++i) vp_assume(sc.B[i][k] == (i == sc.num[k] ? 1.0 : 0.0));
-   // regular, determinant a power of two (exact inverse)
-   double detB = sc.B[0][0] * sc.B[1][1] - sc.B[0][1] * sc.B[1][0];
-   vp_assume(detB == 1.0 || detB == -1.0 || detB == 2.0 || detB == -2.0 || detB == 4.0 || detB == -4.0 || detB == 8.0 || detB == -8.0 || detB == 16.0 || detB == -16.0);
-   for(int i = 0; i < NR; ++i) for(int k = 0; k < NR; ++k)
+   int swap = vp_int_in(0, 1);
+   sc.p[0] = swap ? 1 : 0; sc.p[1] = swap ? 0 : 1;
+   for(int k = 0; k < NR; ++k)
    {
-      int ct = sc.kind[k] ? -sc.rexp[sc.num[k]] : sc.cexp[sc.num[k]];
-      sc.Bs[i][k] = ldexp(sc.B[i][k], sc.rexp[i] + ct);
-      sc.L[i][k] = sc.scaled ? sc.Bs[i][k] : sc.B[i][k];
-      sc.M[i][k] = (sc.scaled && !sc.unscale) ? sc.Bs[i][k] : sc.B[i][k];
+      int neg = vp_int_in(0, 1);
+      sc.sB[k] = neg ? -1 : 1;
+      sc.eB[k] = vp_int_in(-BMAX, BMAX);
+      // a slack column is the unit vector of its row
+      if(sc.kind[k]) vp_assume(sc.p[k] == sc.num[k] && sc.sB[k] == 1 && sc.eB[k] == 0);
    }
-   double det = sc.L[0][0] * sc.L[1][1] - sc.L[0][1] * sc.L[1][0];
-   int e;
-   double m = frexp(det, &e);
-   vp_assume(m == 0.5 || m == -0.5);
-   sc.invdet = ldexp(4.0 * m, -e);                 // 1/(m 2^e), 1/m = 4m for m = +-1/2
-   vp_assume(sc.invdet * det == 1.0);
+   for(int i = 0; i < NR; ++i) sc.nb[i] = vp_small(-4, 4);
+   for(int k = 0; k < NR; ++k)
+   {
+      int ct = 0, re = 0;
+      for(int j = 0; j < NC; ++j) if(j == sc.num[k]) ct = sc.kind[k] ? -sc.rexp[j < NR ? j : 0] : sc.cexp[j];
+      for(int i = 0; i < NR; ++i) if(i == sc.p[k]) re = sc.rexp[i];
+      sc.eS[k] = sc.eB[k] + re + ct;                              // Bs = R B Ct
+      sc.eL[k] = sc.scaled ? sc.eS[k] : sc.eB[k];
+      sc.eM[k] = (sc.scaled && !sc.unscale) ? sc.eS[k] : sc.eB[k];
+   }
    sc.xmode = vp_int_in(0, 1);
    sc.xorder = vp_int_in(0, 1);
 }
@@ -127,17 +134,15 @@ static void put_ss(SSVectorBase<double>& x, const double y[NR])
       if(n > 0) x.forceSetup();
    }
 }
-// x^T L = d^T
+// y^T L = d^T :  y[p[k]] * L[p[k]][k] = d[k]
 static void left_solve(const double d[NR], double y[NR])
 {
-   y[0] = (d[0] * sc.L[1][1] - d[1] * sc.L[1][0]) * sc.invdet;
-   y[1] = (d[1] * sc.L[0][0] - d[0] * sc.L[0][1]) * sc.invdet;
+   for(int k = 0; k < NR; ++k) { double t = ldexp(sgn(k, d[k]), -sc.eL[k]); for(int i = 0; i < NR; ++i) if(i == sc.p[k]) y[i] = t; }
 }
-// L x = d
+// L x = d :  L[p[k]][k] * x[k] = d[p[k]]
 static void right_solve(const double d[NR], double y[NR])
 {
-   y[0] = (sc.L[1][1] * d[0] - sc.L[0][1] * d[1]) * sc.invdet;
-   y[1] = (sc.L[0][0] * d[1] - sc.L[1][0] * d[0]) * sc.invdet;
+   for(int k = 0; k < NR; ++k) y[k] = ldexp(sgn(k, sel(d, sc.p[k])), -sc.eL[k]);
 }
 extern "C" void m_cosolve_ss(Basis* self, SSVectorBase<double>& x, const SVectorBase<double>& rhs)
 {
@@ -174,7 +179,7 @@ static SoPlex* make_soplex()
    // the LP: column j = the basis column of the position that holds j, nonbasic columns = nb
    double A[NR][NC];
    for(int j = 0; j < NC; ++j) for(int i = 0; i < NR; ++i) A[i][j] = sc.nb[i];
-   for(int k = 0; k < NR; ++k) if(!sc.kind[k]) for(int i = 0; i < NR; ++i) A[i][sc.num[k]] = sc.B[i][k];
+   for(int k = 0; k < NR; ++k) if(!sc.kind[k]) for(int i = 0; i < NR; ++i) A[i][sc.num[k]] = (i == sc.p[k]) ? ldexp((double)sc.sB[k], sc.eB[k]) : 0.0;
    DSVectorBase<double> e(1);
    for(int j = 0; j < NC; ++j) sp->addColReal(LPColBase<double>(0.0, e, (double)infinity, 0.0));
    for(int i = 0; i < NR; ++i)
@@ -227,8 +232,9 @@ static SoPlex* make_soplex()
    for(int k = 0; k < NR; ++k)
    {
       g_cols[k] = new DSVectorBase<double>(NR);
-      for(int i = 0; i < NR; ++i) g_cols[k]->add(i, 1.0);
-      for(int i = 0; i < NR; ++i) g_cols[k]->value(i) = sc.L[i][k];
+      g_cols[k]->add(0, 1.0);
+      g_cols[k]->index(0) = sc.p[k];
+      g_cols[k]->value(0) = Lval(sc.p[k], k);
       s->matrix[k] = g_cols[k];
    }
    s->matrixIsSetup = true;
@@ -285,10 +291,10 @@ static void check_rowcol(SlackMode sm, bool isrow)
    after_call(sp, 1);
    vp_assert(coef[0] == CANARY && coef[NR + 1] == CANARY && inds[0] == ICANARY && inds[NR + 1] == ICANARY, 2);
    const double* c = coef + 1;
-   if(isrow)
-      for(int k = 0; k < NR; ++k) vp_assert(c[0] * sc.M[0][k] + c[1] * sc.M[1][k] == (k == q ? 1.0 : 0.0), 3);      // coef^T M = e_q^T
-   else
-      for(int i = 0; i < NR; ++i) vp_assert(sc.M[i][0] * c[0] + sc.M[i][1] * c[1] == (i == q ? 1.0 : 0.0), 4);      // M coef = e_q
+   if(isrow)    // coef^T M = e_q^T ; column k of M has its one nonzero in row p[k]: (coef^T M)_k = coef[p[k]] * M[p[k]][k]
+      for(int k = 0; k < NR; ++k) vp_assert(ldexp(sgn(k, sel(c, sc.p[k])), sc.eM[k]) == (k == q ? 1.0 : 0.0), 3);
+   else         // M coef = e_q ; row p[k] of M has its one nonzero in column k: (M coef)_p[k] = M[p[k]][k] * coef[k]
+      for(int k = 0; k < NR; ++k) vp_assert(ldexp(sgn(k, c[k]), sc.eM[k]) == (sc.p[k] == q ? 1.0 : 0.0), 4);
    if(outmode == 0) check_sparsity(c, inds + 1, ninds);
    else
    {
@@ -309,8 +315,8 @@ static void check_vec(SlackMode sm, int what)
    for(int i = 0; i < NR; ++i) v[i] = vp_small(-BMAX, BMAX);
    SoPlex* sp = make_soplex();
    double Mv[NR], Mtv[NR];
-   for(int i = 0; i < NR; ++i) Mv[i] = sc.M[i][0] * v[0] + sc.M[i][1] * v[1];
-   for(int k = 0; k < NR; ++k) Mtv[k] = sc.M[0][k] * v[0] + sc.M[1][k] * v[1];
+   for(int k = 0; k < NR; ++k) { double t = ldexp(sgn(k, v[k]), sc.eM[k]); for(int i = 0; i < NR; ++i) if(i == sc.p[k]) Mv[i] = t; }   // (M v)_p[k] = M[p[k]][k] v[k]
+   for(int k = 0; k < NR; ++k) Mtv[k] = ldexp(sgn(k, sel(v, sc.p[k])), sc.eM[k]);                                                          // (M^T v)_k = M[p[k]][k] v[p[k]]
    double a[NR + 2], b[NR + 2];
    for(int i = 0; i < NR + 2; ++i) { a[i] = CANARY; b[i] = CANARY; }
    if(what == 0)
